@@ -23,7 +23,8 @@
 
 static jmp_buf jb;
 static int last_err;
-static void my_exit(j_common_ptr c) { last_err = c->err->msg_code; longjmp(jb, 1); }
+static char last_msg[JMSG_LENGTH_MAX];
+static void my_exit(j_common_ptr c) { last_err = c->err->msg_code; (*c->err->format_message) (c, last_msg); longjmp(jb, 1); }
 static void my_emit(j_common_ptr c, int lvl) { if (lvl < 0) c->err->num_warnings++; }
 static void my_output(j_common_ptr c) { (void)c; }
 
@@ -50,6 +51,9 @@ static const char *err_name(int code)
   case JERR_NO_HUFF_TABLE: return "NoHuffTable";
   case JERR_HUFF_MISSING_CODE: return "MissingCode";
   case JERR_BAD_PROGRESSION: return "BadProgression";
+  case JERR_BAD_RESTART: return strncmp(last_msg, "Invalid restart interval", 24) ? "BadRestartWrongText" : "BadRestart";
+  case JERR_BAD_STATE: return "BadState";
+  case JERR_BAD_LENGTH: return "BadLength";
   case JERR_OUT_OF_MEMORY: return "OutOfMemory";
   default: snprintf(buf, sizeof(buf), "Other%d", code); return buf;
   }
@@ -643,11 +647,12 @@ static void do_coef(char *p)
   run_coefs(prec, mode, 4096, NULL, NULL, block, 0);
 }
 
-/* tn PATH WHICH IDX ARITH OPT : table numbers of a component at and beyond their limits
-   PATH 0 compress, 1 jpeg_write_coefficients; WHICH 0 quant_tbl_no, 1 dc_tbl_no, 2 ac_tbl_no */
+/* tn PATH WHICH IDX ARITH OPT MODE : table numbers of a component at and beyond their limits
+   PATH 0 compress, 1 jpeg_write_coefficients; WHICH 0 quant_tbl_no, 1 dc_tbl_no, 2 ac_tbl_no;
+   MODE 0 sequential, 1 progressive (jpeg_simple_progression), 2 lossless (jpeg_enable_lossless) */
 static void do_tn(char *p)
 {
-  int path = (int)nextl(&p), which = (int)nextl(&p), idx = (int)nextl(&p), arith = (int)nextl(&p), opt = (int)nextl(&p);
+  int path = (int)nextl(&p), which = (int)nextl(&p), idx = (int)nextl(&p), arith = (int)nextl(&p), opt = (int)nextl(&p), mode = (int)nextl(&p);
   jvirt_barray_ptr arr[1];
   prng = 77;
   fresh_compress();
@@ -655,6 +660,8 @@ static void do_tn(char *p)
   set_dest(&cc, 4096);
   cc.image_width = 8; cc.image_height = 8; cc.input_components = 1; cc.in_color_space = JCS_GRAYSCALE;
   jpeg_set_defaults(&cc);
+  if (mode == 1) jpeg_simple_progression(&cc);
+  if (mode == 2) jpeg_enable_lossless(&cc, 1, 0);
   if (which == 0) cc.comp_info[0].quant_tbl_no = idx; else if (which == 1) cc.comp_info[0].dc_tbl_no = idx; else cc.comp_info[0].ac_tbl_no = idx;
   cc.arith_code = (boolean)arith; cc.optimize_coding = (boolean)opt;
   if (path == 0) { jpeg_start_compress(&cc, TRUE); feed_image(&cc); }
@@ -666,6 +673,113 @@ static void do_tn(char *p)
   jpeg_destroy_compress(&cc);
   printf("ok");
   print_oracle(0, 8, 8, 1);
+}
+
+/* wt NC ARITH OPT PROG : jpeg_write_tables, then jpeg_start_compress(write_all_tables = FALSE) on the same object;
+   the oracle reads both datastreams with ONE decompression object */
+static void skeleton_only(const unsigned char *s, size_t n, int elide_dht)
+{
+  size_t i = 2, k;
+  printf("ffd8");
+  while (i + 1 < n) {
+    int m; size_t l;
+    if (s[i] != 0xFF) break;
+    m = s[i + 1];
+    if (m == 0xD9) { printf("ffd9"); break; }
+    if (i + 3 >= n) break;
+    l = ((size_t)s[i + 2] << 8) | s[i + 3];
+    if (m == 0xC4 && elide_dht) printf("ffc4%02x..", s[i + 4]);
+    else for (k = i; k < i + 2 + l && k < n; k++) printf("%02x", s[k]);
+    i += 2 + l;
+    if (m == 0xDA) { printf("|"); while (i + 1 < n && !(s[i] == 0xFF && s[i + 1] != 0x00 && s[i + 1] != 0xFF && !(s[i + 1] >= 0xD0 && s[i + 1] <= 0xD7))) i++; }
+  }
+}
+static void do_wt(char *p)
+{
+  int nc = (int)nextl(&p), arith = (int)nextl(&p), opt = (int)nextl(&p), prog = (int)nextl(&p);
+  unsigned char *A = NULL; size_t la = 0; int optim;
+  struct jpeg_decompress_struct d; struct jpeg_error_mgr e; void *volatile rowbuf = NULL;
+  prng = 5 + nc;
+  fresh_compress();
+  if (setjmp(jb)) { printf("err %s # -\n", err_name(last_err)); jpeg_destroy_compress(&cc); free(A); return; }
+  set_dest(&cc, 4096);
+  cc.image_width = 16; cc.image_height = 16; cc.input_components = nc; cc.in_color_space = nc == 1 ? JCS_GRAYSCALE : JCS_RGB;
+  jpeg_set_defaults(&cc);
+  cc.arith_code = (boolean)arith; cc.optimize_coding = (boolean)opt;
+  if (prog) jpeg_simple_progression(&cc);
+  jpeg_write_tables(&cc);
+  la = dest.len; A = malloc(la + 1); memcpy(A, dest.data, la);
+  set_dest(&cc, 4096);
+  jpeg_start_compress(&cc, FALSE);
+  optim = cc.optimize_coding;
+  feed_image(&cc);
+  jpeg_finish_compress(&cc);
+  jpeg_destroy_compress(&cc);
+  printf("ok A="); skeleton_only(A, la, 0); printf(" B="); skeleton_only(dest.data, dest.len, optim);
+  /* oracle: tables-only stream, then the abbreviated image, in one decompressor */
+  d.err = jpeg_std_error(&e); e.error_exit = my_exit; e.emit_message = my_emit; e.output_message = my_output;
+  jpeg_create_decompress(&d);
+  if (setjmp(jb)) { printf(" # len=%lu eoi=1 decerr=%s\n", (unsigned long)dest.len, err_name(last_err)); jpeg_destroy_decompress(&d); free(A); free(rowbuf); return; }
+  jpeg_mem_src(&d, A, (unsigned long)la);
+  { int r = jpeg_read_header(&d, FALSE); if (r != JPEG_HEADER_TABLES_ONLY) { printf(" # len=%lu eoi=0 tablesonly=%d\n", (unsigned long)la, r); jpeg_destroy_decompress(&d); free(A); return; } }
+  jpeg_mem_src(&d, dest.data, (unsigned long)dest.len);
+  jpeg_read_header(&d, TRUE);
+  jpeg_start_decompress(&d);
+  rowbuf = malloc((size_t)d.output_width * d.output_components + 16);
+  while (d.output_scanline < d.output_height) { JSAMPROW r = (JSAMPROW)rowbuf; jpeg_read_scanlines(&d, &r, 1); }
+  jpeg_finish_decompress(&d);
+  printf(" # len=%lu eoi=%d dec=%ux%ux%d warn=%ld scans=%d exp=16x16x%d\n", (unsigned long)dest.len,
+         dest.len >= 2 && dest.data[dest.len - 2] == 0xFF && dest.data[dest.len - 1] == 0xD9,
+         d.image_width, d.image_height, d.num_components, e.num_warnings, d.input_scan_number, nc);
+  jpeg_destroy_decompress(&d); free(A); free(rowbuf);
+}
+
+/* wm STATE LEN CODE : jpeg_write_marker (STATE 4: jpeg_write_m_header + jpeg_write_m_byte) in different API states
+   0 before jpeg_start_compress, 1 right after it, 2 after the first scanline, 3 after jpeg_finish_compress,
+   4 piecemeal right after start, 5 after jpeg_write_coefficients */
+static void do_wm(char *p)
+{
+  int state = (int)nextl(&p); unsigned len = (unsigned)nextl(&p); int code = (int)nextl(&p); unsigned k;
+  unsigned char *data = malloc(len + 16); jvirt_barray_ptr arr[1]; volatile int wrote = 0;
+  static unsigned char rowb[64]; JSAMPROW rp = rowb;
+  for (k = 0; k < len; k++) data[k] = (unsigned char)(k * 7 + 1);
+  prng = 9;
+  fresh_compress();
+  if (setjmp(jb)) { printf("err %s # -\n", err_name(last_err)); jpeg_destroy_compress(&cc); free(data); return; }
+  set_dest(&cc, 4096);
+  cc.image_width = 16; cc.image_height = 16; cc.input_components = 1; cc.in_color_space = JCS_GRAYSCALE;
+  jpeg_set_defaults(&cc);
+  if (state == 0) jpeg_write_marker(&cc, code, data, len);
+  if (state == 5) {
+    arr[0] = (*cc.mem->request_virt_barray) ((j_common_ptr)&cc, JPOOL_IMAGE, TRUE, 2, 2, 1);
+    jpeg_write_coefficients(&cc, arr);
+    jpeg_write_marker(&cc, code, data, len); wrote = 1;
+  } else {
+    jpeg_start_compress(&cc, TRUE);
+    if (state == 1) { jpeg_write_marker(&cc, code, data, len); wrote = 1; }
+    if (state == 4) { jpeg_write_m_header(&cc, code, len); for (k = 0; k < len; k++) jpeg_write_m_byte(&cc, data[k]); wrote = 1; }
+    memset(rowb, 90, sizeof(rowb));
+    jpeg_write_scanlines(&cc, &rp, 1);
+    if (state == 2) jpeg_write_marker(&cc, code, data, len);
+    while (cc.next_scanline < cc.image_height) jpeg_write_scanlines(&cc, &rp, 1);
+  }
+  jpeg_finish_compress(&cc);
+  if (state == 3) jpeg_write_marker(&cc, code, data, len);
+  jpeg_destroy_compress(&cc);
+  {
+    /* the segment must be in the stream, after SOI/APP0 and before the first DQT/SOF */
+    size_t i = 2; int found = 0, before = 1;
+    while (i + 3 < dest.len && dest.data[i] == 0xFF) {
+      int m = dest.data[i + 1]; size_t l = ((size_t)dest.data[i + 2] << 8) | dest.data[i + 3];
+      if (m == 0xDA) break;
+      if (m == code && l == (size_t)len + 2 && (len == 0 || !memcmp(dest.data + i + 4, data, len))) { found = 1; break; }
+      if (m == 0xDB || (m >= 0xC0 && m <= 0xCF && m != 0xC4 && m != 0xCC)) before = 0;
+      i += 2 + l;
+    }
+    printf("ok m=%d", wrote ? (found && before) : -1);
+  }
+  free(data);
+  print_oracle(0, 16, 16, 1);
 }
 
 /* ------------------------------------------------------------------ quant tables */
@@ -755,6 +869,8 @@ int main(void)
     else if (!strcmp(cmd, "raw")) do_setup_variant(p, 2);
     else if (!strcmp(cmd, "hdr")) do_setup_variant(p, 3);
     else if (!strcmp(cmd, "tn")) do_tn(p);
+    else if (!strcmp(cmd, "wt")) do_wt(p);
+    else if (!strcmp(cmd, "wm")) do_wm(p);
     else if (!strcmp(cmd, "blk")) do_blk(p);
     else if (!strcmp(cmd, "coef")) do_coef(p);
     else if (!strcmp(cmd, "qt")) do_qt(p);
